@@ -6,15 +6,23 @@ import KonstVerif.Spec.ArrayStd
 /-
   C15 requests (prefixes `cons.`, `led.`, `destr.`; `bld.hist` of C11 is reused for the builder ledger):
 
-    cons.hist <new|empty> <n> <ops>     ops over f (next) b (next_back) c (clone, drop original) k (clone, drop clone),
-                                        last char d (drop) | g (mem::forget) | e (assert_is_empty)
-          answer: per step `<op>=<some:id|none|ok>,[remaining ids]` joined by `;` (or `-`), `|d` / `|g` / `|e=ok` / `|e=panic`,
+    cons.hist <new|empty> <n> <ops>     ops over f (next) b (next_back) c (clone, drop original) k (clone, drop clone)
+                                        0..9 (clone with an element `Clone` that PANICS on its j-th call, caught; a clone
+                                        that completes is dropped), last char d (drop) | g (mem::forget) | e (assert_is_empty)
+          answer: per step `<op>=<some:id|none|ok|panic>,[remaining ids]` joined by `;` (or `-`), `|d` / `|g` / `|e=ok` / `|e=panic`,
                   `|L=[id:m;id:d;…]` ledger in event order, `|leak=[ids]` (owned, never dropped)
     led.<map_|from_fn_> <n> <exit>      by-value macros over drop-logging elements: inputs have ids 0..n-1, the k-th output
                                         created gets id n+k;
           answer: `<res>|L=[id:c;…;id:d;…]|leak=[ids]`  (`id:c` = handed to the closure)
-    destr.<fin|imm> <shape> <fields>    shape ∈ tuple tstruct bstruct bstructr packed bpacked generic array:<len>
-          fields: two letters per field, type ∈ e n z p a s g (ids: e1 n0 z0 p2 a2 s1 g1) and pattern ∈ b w;
+    destr.<fin|imm|const> <shape> <fields>
+          shape ∈ tuple tstruct bstruct bstructr packed bpacked cpacked cbpacked packed2 generic array:<len>
+            (`packed`/`bpacked` = `#[repr(packed)]` tuple / braced struct, `c…` = `#[repr(C, packed)]`,
+             `packed2` = `#[repr(packed(2))]` tuple struct)
+          fields: two letters per field, type ∈ e n z p a s g o h q t (ids: e1 n0 z0 p2 a2 s1 g1; o = u8, h = u16,
+            q = u64, t = String: no ids — they exist to put wider fields at MISALIGNED offsets) and pattern ∈ b w;
+          const: the destructuring is done in a `const` item / a `const fn` called from a `const` item (compile-time
+            evaluation, which checks the alignment of every read); same answer as `fin`, or `does-not-compile`
+    destr.miri <program>                the run-time packed-struct cases under Miri: answer `clean`
           for arrays one letter per pattern: b w (one element), R (`r @ ..`), D (`..`)
           fin: `L=[id:m|id:d …sorted by id]|vals=[<type><field index>:<ids>;…]` (bound fields in read order)
           imm: `[ids dropped inside the macro's statements, in order]`
@@ -41,6 +49,7 @@ def handleCons (args : List String) : Option (String × String) := do
       match o with
       | .front v | .back v => some (s!"{ch}={showOptNat v},{showNats sl}", (match v with | some i => [s!"{i}:m"] | none => []))
       | .cloned d => some (s!"{ch}=ok,{showNats sl}", ledStr "d" d)
+      | .panicked d => some (s!"{ch}=panic,{showNats sl}", ledStr "d" d)
       | .ub => none
     let finStr := fun (e : ArrayConsumer.End) (f : ArrayConsumer.Final Nat) =>
       match e with
@@ -48,7 +57,8 @@ def handleCons (args : List String) : Option (String × String) := do
     let parseOp := fun (ch : Char) =>
       match ch with
       | 'f' => some ArrayConsumer.Op.next | 'b' => some ArrayConsumer.Op.nextBack
-      | 'c' => some ArrayConsumer.Op.clone | 'k' => some ArrayConsumer.Op.cloneDrop | _ => none
+      | 'c' => some ArrayConsumer.Op.clone | 'k' => some ArrayConsumer.Op.cloneDrop
+      | _ => if ch.isDigit then some (ArrayConsumer.Op.clonePanic (ch.toNat - '0'.toNat)) else none
     let parseEnd := fun (ch : Char) =>
       match ch with
       | 'd' => some ArrayConsumer.End.drop | 'g' => some ArrayConsumer.End.forget
@@ -113,6 +123,7 @@ open Konst.Destructure in
 def idsOf (ty : Char) : Option Nat :=
   match ty with
   | 'e' => some 1 | 'n' => some 0 | 'z' => some 0 | 'p' => some 2 | 'a' => some 2 | 's' => some 1 | 'g' => some 1
+  | 'o' => some 0 | 'h' => some 0 | 'q' => some 0 | 't' => some 0
   | _ => none
 
 open Konst.Destructure in
@@ -151,7 +162,7 @@ def immStr (reads : List (Destructure.Pat × Field)) : String :=
     the caller iff its pattern binds it, otherwise it is dropped; bound fields appear in listing order -/
 def refOut (what : String) (listing : List (Field × Destructure.Pat)) : Option String :=
   match what with
-  | "fin" =>
+  | "fin" | "const" =>
     let evs : List (Nat × String) := listing.flatMap fun (f, p) =>
       f.2.2.map fun i => (i, if p == .bind then "m" else "d")
     let sorted := evs.mergeSort (fun a b => a.1 ≤ b.1)
@@ -163,10 +174,11 @@ def refOut (what : String) (listing : List (Field × Destructure.Pat)) : Option 
 def handleDestr (what : String) (args : List String) : Option (String × String) := do
   match what, args with
   | "rej", [_case] => some ("does-not-compile", "does-not-compile")
+  | "miri", [_prog] => some ("clean", "clean")
   | _, [shape, fields] =>
     let out := fun (reads : List (Destructure.Pat × Field)) =>
       match what with
-      | "fin" => some (finStr reads)
+      | "fin" | "const" => some (finStr reads)
       | "imm" => some (immStr reads)
       | _ => none
     if shape.startsWith "array:" then do
@@ -209,8 +221,8 @@ def handleDestr (what : String) (args : List String) : Option (String × String)
       let fields' := fs.map (·.1)
       let pats := fs.map (·.2)
       let reads ← (match shape with
-        | "tuple" | "tstruct" | "packed" => Destructure.destructureTuple fields' pats
-        | "bstruct" | "bpacked" | "generic" =>
+        | "tuple" | "tstruct" | "packed" | "cpacked" | "packed2" => Destructure.destructureTuple fields' pats
+        | "bstruct" | "bpacked" | "cbpacked" | "generic" =>
           Destructure.destructureStruct fields' ((List.range fs.length).zip pats)
         | "bstructr" =>
           Destructure.destructureStruct fields' (((List.range fs.length).zip pats).reverse)
